@@ -179,7 +179,9 @@ fn faulted_run(initial: &std::sync::Arc<Image>, part: usize, cfg: &HistCfg, ops:
                 rep.violate(v("C11.ok-despite-fault", op.kind(), "returned success", format!("{} returned {} although a device call failed during it ({})", op.describe(), what, plan.label), mk_case(i)));
                 return false;
             }
-            OpRes::Err(k) if !acceptable_error(op, *k) => {
+            // (a call that fails for its own reason in the fault-free run too - e.g. NotEnoughSpace -
+            // still "returns an error" when a device call fails during its clean-up)
+            OpRes::Err(k) if !acceptable_error(op, *k) && golden.get(i) != Some(&OpRes::Err(*k)) => {
                 rep.violate(v("C11.ok-despite-fault", op.kind(), &format!("fabricated answer {:?}", k), format!("{} answered {:?} although the device failed during it ({})", op.describe(), k, plan.label), mk_case(i)));
                 return false;
             }
@@ -246,8 +248,14 @@ fn faulted_run(initial: &std::sync::Arc<Image>, part: usize, cfg: &HistCfg, ops:
     }
     let mut vols: Vec<embedded_sdmmc::RawVolume> = ex.vols.iter().flatten().cloned().collect();
     vols.extend(ex.displaced_vols.iter().cloned());
+    // a `drop(Volume)` earlier in the history may already have closed a volume (Drop = close
+    // ignoring the error; whether it closed is not observable): BadHandle is then legitimate
+    let dropped_any = ops.iter().any(|o| matches!(o, Op::DropVol { .. }));
     for vh in vols {
         let r = report::catch(|| ex.vm.close_volume(Fl::Raw, vh).map_err(|e| crate::vm::ek(&e)));
+        if dropped_any && matches!(r, Ok(Err(Ek::BadHandle))) {
+            continue;
+        }
         if !matches!(r, Ok(Ok(()))) {
             rep.violate(v("C11.handle-wedged", ops[fi].kind(), "close_volume after fault", format!("after the failed {} the volume cannot be closed: {:?}", ops[fi].describe(), r), mk_case(fi)));
             return false;
